@@ -525,3 +525,43 @@ M('r16-tax-function-dips', ['C16', 'C07'], Y23 + 'f1040_figure_tax.py', "22774.0
 M('r9-composite-gate-never-true', ['C09'], Y23 + 'f8889.py', "if i['1040_s1.hsa_contribution_you'] and i['1040_s1.hsa_contribution_spouse'] and i['hdhp_plan_family'] else v['5']",
   "if i['1040_s1.hsa_contribution_you'] and i['1040_s1.hsa_contribution_spouse'] and i['hdhp_plan_family'] and i['1040.filing_status'] == 'MarriedFilingJointly' else v['5']", 'R9.1',
   'a further conjunct that is never true (enumeration member compared with text) silences the both-spouses HSA refusal (seed C09-L)')
+
+
+# ------------------------------------------------------------------ round 7 of the seeded changes
+M('l3-recompute-line-11', ['C02', 'C03'], Y21 + 'f1040_recovery_rebate_credit_wkst.py', "(v['8'] * v['11']) if v['9_checkbox'] else v['8']", "(v['8'] * line_11(s, i, v)) if v['9_checkbox'] else v['8']", 'L3',
+  'line 12 recomputes line 11 from its definition instead of reading the (rounded) line (seed C02-N)')
+M('k22b-text-newlines-replaced', ['C14', 'C03'], FI, "class StringField(BasicTypedField):\n    def __init__(self, name, value_fn):\n        self._empty_value = \"\"\n        super().__init__(name, value_fn, str)\n",
+  "class StringField(BasicTypedField):\n    def __init__(self, name, value_fn):\n        self._empty_value = \"\"\n        super().__init__(name, value_fn, str)\n\n    def to_string(self, value):\n        return str(value).replace(\"\\n\", \" \")\n", 'K22b',
+  'text lines are written with their line breaks replaced (seed C03-M)')
+M('k22b-float-sign-dropped', ['C14'], FI, "    def to_string(self, value):\n        return f'{value:.{self._places}f}'\n", "    def to_string(self, value):\n        if round(value, 2) == 0:\n            value = abs(value)\n        return f'{value:.{self._places}f}'\n", 'K22b',
+  'the sign of amounts that are zero to the cent is dropped, also on lines kept to 5 places (seed C14-M)')
+M('k22b-filler-normalises-text', ['C14'], PF, "            string = self._solution[form_name][field_name]\n", "            string = self._solution[form_name][field_name].strip()\n", 'K22b',
+  'the filler strips the solution text before converting it (seed C14-N)')
+M('k0-solve-form-by-form', ['C03', 'C04', 'C05', 'C06'], S, "        for form_name in form_names:\n            self._add_form(form_name)\n",
+  "        for form_name in form_names:\n            self._add_form(form_name)\n            while len(self._unattempted_fields) > 0:\n                self._attempt_field(self._unattempted_fields.pop())\n", 'K0',
+  'lines are attempted after each requested form is added, before the later ones are known (seed C05-N)', accept_error=True)
+M('k10-invalid-answer-ignored', ['C06', 'C13'], S, "        if supplied:\n            assert missing.valid(value)\n", "        if supplied and not missing.valid(value):\n            return False\n        if supplied:\n", 'K10',
+  'an invalid scripted answer is dropped without recording a refusal: the same question is asked for ever (seed C06-M)')
+M('k24c-met-list-reset', ['C06'], S, "            else:\n                self._met.pop(0)\n                continue\n", "            else:\n                self._met.pop(0)\n                continue\n        self._met = []\n", 'K24c',
+  'the drain resets the list of satisfied names at its end: names met during a suspended drain are forgotten (seed C06-N)')
+M('c07-missing-status-key', ['C07'], Y21 + 'f1040_figure_tax.py', "    if taxable_amount < 100000:\n        return figure_tax_table(taxable_amount, filing_status_index)",
+  "    if taxable_amount < 100000:\n        return figure_tax_table(taxable_amount, {2: 2, 3: 3, 4: 4}[filing_status_index])", 'D1',
+  'a lookup table of the tax function has no entry for one status: KeyError below $100,000 (seed C07-M)')
+M('k21a-normalise-before-type-test', ['C12'], FI, "        elif type(v) is not self._type:\n", "        v = v if not hasattr(v, '__round__') else v\n        if type(v) is not self._type:\n", 'K21a',
+  'the answer is rebound before the type test (seed C12-M)')
+M('r16-break-in-copy-loop', ['C16'], Y22 + 'f1040_sa.py', "            mortgage_interest_points = sum([v[f'1098:{n}.box_1'] for n in range(i['1040.number_1098'])])\n",
+  "            mortgage_interest_points = 0.0\n            for n in range(i['1040.number_1098']):\n                if v[f'1098:{n}.box_7']:\n                    break\n                mortgage_interest_points += v[f'1098:{n}.box_1']\n", 'R16.1',
+  'a loop over the 1098 copies that sums amounts is left with break at the first copy with box 7 ticked (seed C16-M)')
+M('k20-answer-rewritten', ['C09', 'C11', 'C01'], CLI, "    return (value, True)\n", "    if value.strip().lower().startswith('y'):\n        value = 'yes'\n    return (value, True)\n", 'K20',
+  'the validated answer is rewritten before it is returned (seed C09-N)')
+M('r15-cents-line-in-whole-dollar-sum', ['C15'], Y21 + 'fnc_d_400.py', "FloatField('29', lambda s, i, v: i['2022_estimated_income_tax'], places=0),", "FloatField('29', lambda s, i, v: i['2022_estimated_income_tax']),", 'R15.4',
+  'NC line 29 is kept to cents while the lines that add it are whole dollars (seed C15-N)')
+M('r17-valid-instances-mutated', ['C17'], Y22 + 'f8889.py', "        assert instance in ['you', 'spouse']\n", "        assert instance in self.valid_instances\n        others = self.valid_instances\n        others.remove(instance)\n", 'R17.7',
+  'the constructor removes its instance from the class-level list of allowed instances (seed C17-N)')
+M('k35-lazy-config', ['C20', 'C13', 'C11'], IN, "    def write(self, filename):\n        with open(filename, 'w') as outfile:\n            self.config.write(outfile)\n",
+  "    @property\n    def cfg(self):\n        c = configparser.ConfigParser(interpolation=None)\n        c.read(self._path)\n        return c\n\n    def write(self, filename):\n        with open(filename, 'w') as outfile:\n            self.cfg.write(outfile)\n", 'K35',
+  'write-back goes through a property that loads the file on use - after open(..., "w") has truncated it (seed C20-M)')
+M('k35-sections-lowercased', ['C20', 'C13', 'C11'], IN, "                self.config.read_file(config_file)\n", "                self.config.read_file(config_file)\n            for section in self.config.sections():\n                if section != section.lower():\n                    self.config[section.lower()] = self.config[section]\n                    self.config.remove_section(section)\n", 'K35',
+  'sections are renamed to lower case on load: an existing lower-case section is cleared first (seed C20-N)')
+M('l4-demand-inside-assert', ['C04'], Y23 + 'f1040_sb.py', "                v['7a']\n                v['7b']\n                v['8']\n", "                assert not (v['7a'] or v['7b'] or v['8'])\n", 'L4',
+  'the demand-only reads of Part III are folded into an assert, which python -O strips (seed C04-N)')
